@@ -29,8 +29,8 @@ theorem getDirBond_mem {m : PMol} {a b : Nat} {bd : PBond} (h : m.getDirBond a b
 theorem updateBondOrder_ok_spec {m m' : PMol} (hok : AdjOK m.adj) (hlen : m.counts2.length = m.adj.length)
     (hcnt : ∀ v, v < m.adj.length → m.counts2.getD v 0 = incident2 m.adj v) {a b o : Nat}
     (h : m.updateBondOrder a b o = .ok m') :
-    ∃ c', m' = { m with adj := mapOrders (upd a b o) m.adj, counts2 := c' } ∧ c'.length = m.adj.length ∧
-      ∀ v, v < m.adj.length → c'.getD v 0 = incident2 (mapOrders (upd a b o) m.adj) v := by
+    ∃ c', m' = { m with adj := mapOrders (updP a b o) m.adj, counts2 := c' } ∧ c'.length = m.adj.length ∧
+      ∀ v, v < m.adj.length → c'.getD v 0 = incident2 (mapOrders (updP a b o) m.adj) v := by
   have h0 := h
   unfold PMol.updateBondOrder at h0
   obtain ⟨u, hu, h0⟩ := bind_ok h0
@@ -72,7 +72,7 @@ theorem KekSt.update {m0 m m' : PMol} (hok0 : AdjOK m0.adj) (h : KekSt m0 m) {a 
     split
     · exact Or.inr (Or.inl rfl)
     · exact hG i bd hbd
-  · show mapOrders (upd a b 4) m.adj = _
+  · show mapOrders (updP a b 4) m.adj = _
     rw [hadj, mapOrders_mapOrders, upd_setOrd]
   · intro v hv
     exact g2 v (hlen ▸ hv)
